@@ -6,13 +6,12 @@ class C03(Spec):
     drv = "drv_c03"
     harness = "h_c03"
     lean_deps = ("C01", "C02")
-    required_theorems = ("C03.proof_complete", "C03.proof_complete_bytes_partial", "C03.proof_sound",
+    required_theorems = ("C03.proof_complete", "C03.proof_complete_bytes", "C03.proof_sound",
                          "C03.verify_other_root", "C03.verify_total")
-    partial = ("C03.proof_complete_bytes_partial",)
     level_text = ("Lean 4 theorems over the executable model of proof.go / VerifyKVPairProof, hash function a parameter with "
                   "32-byte outputs: completeness — for every key found in a hashed search tree (hashed under any configuration, "
                   "C02.hashNode_Hashed) constructProof succeeds and Proof.Verify accepts it with the stored value against the "
-                  "tree's root (proof_complete); soundness — the same proof bytes are never accepted for two different "
+                  "tree's root (proof_complete), and at byte level the bytes Tree.Proof emits are accepted by VerifyKVPairProof including the proto3 Unmarshal (proof_complete_bytes, with a proved encode/decode round trip); soundness — the same proof bytes are never accepted for two different "
                   "(key,value) pairs against one root unless an explicit hash collision exists (proof_sound, using a proved "
                   "injectivity of the LeafNode/InnerNode encodings), and never against another root (verify_other_root); "
                   "undecodable bytes are rejected and the verifier has no panic outcome (verify_total). "
@@ -21,9 +20,10 @@ class C03(Spec):
                   "byte mutations of the proof and arbitrary wire-shaped byte strings go to VerifyKVPairProof under recover; "
                   "accept/reject equals the model's (its proto3 decoder mirrors protobuf-go's field loop) and the predicate "
                   "(accept honest, reject other value/key/root, never panic) is evaluated on the implementation.")
-    level_note = ("Byte-level completeness is partial: it assumes decodeProof (encProof ins) = some ins (the proto3 round trip), "
-                  "which the differential run checks on every generated proof but Lean does not prove. A proof whose sibling "
-                  "hash is prefixed with junk still verifies (last 32 bytes used) — documented, not a violation.")
+    level_note = ("Byte-level completeness assumes the tree fits the Go types (int32 height/size, node keys < 2^32 bytes: `Fits`). "
+                  "Soundness is stated for one proof used with two (key,value) pairs or two roots (what the property lists); the "
+                  "stronger 'any accepted proof implies membership' is not proved. A proof whose sibling hash is prefixed with "
+                  "junk still verifies (last 32 bytes used) — documented, not a violation.")
     assumptions = (
         "hash function with 32-byte outputs (SHA-256); soundness concludes '... or Collision H'",
         "protobuf-go Unmarshal behaves as the modelled field loop (compared on ~10^4 arbitrary byte strings per run)",
